@@ -802,6 +802,199 @@ class VaryGen:
         return {"root": root, "partials": dict(sorted(partials.items())), "data": self.data, "has_break": False}
 
 
+# --------------------------------------------------------------------------- per-item lengths
+
+
+class ItemGen:
+    """Nests whose OUTER loop is render-for / include-for / include-with-a-list / tablerow /
+    for (optionally inside one more enclosing loop) and whose inner loop length depends on
+    the ITEM: rows of different lengths with the longest first, in the middle or last, or
+    ranges `(v..K)` / `(1..v)` over the item.  The sum of the inner lengths (what really
+    runs) is below len(items) x longest (what the engine counts up front), and the first /
+    middle / last item each get the chance to be the one that decides."""
+
+    OUTERS = ("renderfor", "renderfor", "renderfor", "includefor", "includewith", "tablerow", "for")
+
+    def __init__(self, rng: random.Random):
+        self.r = rng
+        self.mark_i = 0
+
+    def mark(self) -> list[Any]:
+        m = MARKS[self.mark_i % len(MARKS)]
+        self.mark_i += 1
+        return ["t", m]
+
+    def lengths(self) -> list[int]:
+        r = self.r
+        n = r.randint(2, 5)
+        longest = r.randint(3, 10)
+        rest = [r.randint(0, max(0, longest - 1)) for _ in range(n - 1)]
+        pos = r.choice(["first", "first", "middle", "last", "any"])
+        if pos == "first":
+            return [longest, *rest]
+        if pos == "last":
+            return [*rest, longest]
+        if pos == "middle":
+            k = len(rest) // 2
+            return [*rest[:k], longest, *rest[k:]] if n > 2 else [longest, *rest]
+        out = [longest, *rest]
+        r.shuffle(out)
+        return out
+
+    def program(self) -> dict[str, Any]:
+        r = self.r
+        lens = self.lengths()
+        data: dict[str, Any] = {}
+        outer = r.choice(self.OUTERS)
+        by_range = r.random() < 0.35
+        K = max(lens)
+        if by_range:
+            # item v, inner loop (v..K): K - v + 1 iterations
+            data["rows"] = [K - ln + 1 for ln in lens]
+            inner_iter = f"(row..{K})"
+        else:
+            data["rows"] = [list(range(ln)) for ln in lens]
+            inner_iter = "row"
+        inner_body: list[Any] = [self.mark(), ["t", "."]]
+        if r.random() < 0.2:
+            inner_body.append(["for", "h", f"(1..{r.randint(2, 3)})", "", [self.mark()], None])
+        inner: list[Any] = ["for", "cell", inner_iter, r.choice(["", "", " reversed"]), inner_body, None]
+        rowbody: list[Any] = [self.mark(), inner, ["t", "|"]]
+        seq = "rows"
+        partials: dict[str, list[Any]] = {}
+        enclosing = r.random() < 0.3
+        if enclosing:
+            data["groups"] = [data["rows"]] * r.randint(1, 2)
+            seq = "g"
+        if outer == "renderfor":
+            partials["row"] = rowbody
+            nest: list[Any] = ["ren", "row", "for", seq, r.choice(["row", ""]), []]
+        elif outer == "includefor":
+            partials["row"] = rowbody
+            nest = ["inc", "row", "for", seq, r.choice(["row", ""]), []]
+        elif outer == "includewith":
+            partials["row"] = rowbody
+            nest = ["inc", "row", "with", seq, r.choice(["row", ""]), []]
+        elif outer == "tablerow":
+            nest = ["tr", "row", seq, r.choice(["", " cols: 2"]), rowbody]
+        else:
+            nest = ["for", "row", seq, "", rowbody, None]
+        root: list[Any] = [["t", "["]]
+        if enclosing:
+            root.append(["for", "g", "groups", "", [self.mark(), nest], None])
+        else:
+            root.append(nest)
+        root.append(["t", "]"])
+        return {"root": root, "partials": partials, "data": data, "has_break": False}
+
+
+# --------------------------------------------------------------------------- inheritance layers
+
+
+class LayerGen:
+    """Local variables spread over inheritance layers and block nesting: assigns and
+    captures before `extends`, in the parent template outside its blocks (before, between
+    and after them, inside a loop around a block), inside overriding blocks of every layer,
+    inside blocks nested in blocks, behind block.super, and inside partials / macros called
+    from a block.  Values have sizes of the same order, so limits between the largest
+    single value and the sum separate 'each fits' from 'all fit together'."""
+
+    def __init__(self, rng: random.Random):
+        self.r = rng
+        self.n_val = 0
+
+    def value(self) -> str:
+        r = self.r
+        c = r.random()
+        if c < 0.55:
+            ch = "abcdefgh"[self.n_val % 8]
+            return q(ch * r.randint(10, 160))
+        if c < 0.7:
+            return r.choice(["s1", "s2", "s1 | append: s2"])
+        if c < 0.8:
+            return q("é" * r.randint(5, 60))
+        if c < 0.9:
+            return r.choice(["xs", "(1..5)", "'a,b,c,d,e,f' | split: ','"])
+        return str(r.randint(0, 10**9))
+
+    def bind(self) -> list[Any]:
+        r = self.r
+        self.n_val += 1
+        name = f"v{self.n_val}" if r.random() < 0.8 else r.choice(["v1", "v2"])
+        if r.random() < 0.75:
+            return ["a", name, self.value()]
+        return ["cap", name, [["t", "cd" * r.randint(3, 50)], ["o", "s1"]]]
+
+    def binds(self, lo: int, hi: int) -> list[Any]:
+        return [self.bind() for _ in range(self.r.randint(lo, hi))]
+
+    def block_body(self, allow_partials: bool, nested: list[str]) -> list[Any]:
+        r = self.r
+        body: list[Any] = [["t", "("], *self.binds(0, 2)]
+        if r.random() < 0.3:
+            body.append(["o", "block.super"])
+        if nested and r.random() < 0.6:
+            name = nested.pop()
+            body.append(["blk", name, [["t", "n"], *self.binds(0, 2)]])
+        if allow_partials and r.random() < 0.3:
+            c = r.random()
+            if c < 0.4:
+                body.append(["ren", "part", "", "", "", []])
+            elif c < 0.7:
+                body.append(["inc", "part", "", "", "", []])
+            else:
+                body += [["mac", "mm", self.binds(1, 2)], ["call", "mm"]]
+        if r.random() < 0.25:
+            body.append(["for", "z", f"(1..{r.randint(1, 3)})", "", [["a", "grow", "grow | append: 'xxxxxxxx'"]], None])
+        body += self.binds(0, 1)
+        body += [["o", "v1 | size"], ["t", ")"]]
+        return body
+
+    def program(self) -> dict[str, Any]:
+        r = self.r
+        data = {"s1": "s" * r.randint(1, 80), "s2": r.choice(STRS[:4] + ["t" * 40]), "xs": [1, "a", "é"]}
+        partials: dict[str, list[Any]] = {"part": [["t", "p"], *self.binds(1, 2), ["o", "v1 | size"]]}
+        nblocks = r.randint(1, 2)
+        names = [f"b{i}" for i in range(nblocks)]
+        nested_names = [f"in{i}" for i in range(r.randint(0, 2))]
+        declared: list[str] = []
+
+        # ---- base ------------------------------------------------------------------
+        base: list[Any] = [["t", "<"], *self.binds(0, 2)]
+        pool = list(nested_names)
+        for name in names:
+            default = self.block_body(False, pool)
+            default = [s for s in default if s != ["o", "block.super"]]
+            blk: list[Any] = ["blk", name, default]
+            if r.random() < 0.3:
+                base.append(["for", "g", f"(1..{r.randint(1, 2)})", "", [*self.binds(0, 1), blk], None])
+            else:
+                base.append(blk)
+            base += self.binds(0, 1)
+        declared = names + [n for n in nested_names if n not in pool]
+        base += [["o", "v1 | size"], ["t", ">"]]
+        partials["base"] = base
+
+        # ---- middle layer -------------------------------------------------------------
+        parent = "base"
+        if r.random() < 0.45:
+            mid: list[Any] = [*self.binds(0, 1), ["ext", "base"]]
+            extra_all = [f"m{i}" for i in range(r.randint(0, 1))]
+            extra = list(extra_all)
+            for name in r.sample(declared, r.randint(1, len(declared))):
+                mid.append(["blk", name, self.block_body(True, extra)])
+            # blocks first declared by the middle layer can be overridden by the leaf too
+            declared = declared + [n for n in extra_all if n not in extra]
+            partials["mid"] = mid
+            parent = "mid"
+
+        # ---- leaf ---------------------------------------------------------------------
+        root: list[Any] = [*self.binds(0, 2), ["ext", parent]]
+        for name in r.sample(declared, r.randint(1, len(declared))):
+            root.append(["blk", name, self.block_body(True, [])])
+        return {"root": root, "partials": dict(sorted(partials.items())), "data": data, "has_break": False}
+
+
 # --------------------------------------------------------------------------- shrink
 
 
